@@ -133,7 +133,7 @@ fn convert_dockerignore_pattern(
 
     let mut negate = false;
     if pattern.starts_with("!") {
-        pattern = pattern.replace("!", "");
+        pattern = pattern[1..].to_string();
         negate = true;
     }
 
